@@ -2464,6 +2464,825 @@ let pending s =
 let registered_count s =
   Z.of_nat (length (filter (fun t -> t.t_reg) s.q_thr))
 
+type sw = { w_ep : z; w_T : z; w_P : z }
+
+(** val sw_word : sw -> z **)
+
+let sw_word x =
+  Z.add
+    (Z.add
+      (Z.mul x.w_ep (Z.pow (Zpos (XO XH)) (Zpos (XO (XI (XI (XI (XI XH))))))))
+      (Z.mul x.w_T (Z.pow (Zpos (XO XH)) (Zpos (XO (XO (XO (XO (XO XH)))))))))
+    x.w_P
+
+(** val sw_eqb : sw -> sw -> bool **)
+
+let sw_eqb x y =
+  (&&) ((&&) (Z.eqb x.w_ep y.w_ep) (Z.eqb x.w_T y.w_T)) (Z.eqb x.w_P y.w_P)
+
+(** val sw_stm : sw -> bool **)
+
+let sw_stm x =
+  Z.ltb x.w_T (Zpos (XO XH))
+
+(** val sw_inc_T : sw -> sw **)
+
+let sw_inc_T x =
+  { w_ep = x.w_ep; w_T = (Z.add x.w_T (Zpos XH)); w_P = x.w_P }
+
+(** val sw_dec_T : sw -> sw **)
+
+let sw_dec_T x =
+  { w_ep = x.w_ep; w_T = (Z.sub x.w_T (Zpos XH)); w_P = x.w_P }
+
+(** val sw_inc_TP : sw -> sw **)
+
+let sw_inc_TP x =
+  { w_ep = x.w_ep; w_T = (Z.add x.w_T (Zpos XH)); w_P =
+    (Z.add x.w_P (Zpos XH)) }
+
+(** val sw_dec_TP : sw -> sw **)
+
+let sw_dec_TP x =
+  { w_ep = x.w_ep; w_T = (Z.sub x.w_T (Zpos XH)); w_P =
+    (Z.sub x.w_P (Zpos XH)) }
+
+(** val sw_dec_P : sw -> sw **)
+
+let sw_dec_P x =
+  { w_ep = x.w_ep; w_T = x.w_T; w_P = (Z.sub x.w_P (Zpos XH)) }
+
+(** val sw_next_epoch : sw -> sw **)
+
+let sw_next_epoch x =
+  { w_ep = (ep_adv x.w_ep); w_T = x.w_T; w_P = x.w_T }
+
+type fop =
+| OpStart
+| OpResume
+| OpQuiescent
+| OpRetire
+| OpPause
+| OpExit
+
+(** val fop_eqb : fop -> fop -> bool **)
+
+let fop_eqb a b =
+  match a with
+  | OpStart -> (match b with
+                | OpStart -> true
+                | _ -> false)
+  | OpResume -> (match b with
+                 | OpResume -> true
+                 | _ -> false)
+  | OpQuiescent -> (match b with
+                    | OpQuiescent -> true
+                    | _ -> false)
+  | OpRetire -> (match b with
+                 | OpRetire -> true
+                 | _ -> false)
+  | OpPause -> (match b with
+                | OpPause -> true
+                | _ -> false)
+  | OpExit -> (match b with
+               | OpExit -> true
+               | _ -> false)
+
+type olist =
+| OPrev
+| OCur
+
+(** val olist_eqb : olist -> olist -> bool **)
+
+let olist_eqb a b =
+  match a with
+  | OPrev -> (match b with
+              | OPrev -> true
+              | OCur -> false)
+  | OCur -> (match b with
+             | OPrev -> false
+             | OCur -> true)
+
+type fevent =
+| FCall of tid0 * fop * z
+| FRet of tid0 * fop
+| FLoad of tid0 * z
+| FCas of tid0 * z * z
+| FFetchSub of tid0 * z
+| FSpin of tid0
+| FOLoad of tid0 * olist * z
+| FOCas of tid0 * olist * z * z
+| FOXchg of tid0 * olist * z
+| FOMove of tid0 * z * z
+| FOAppend of tid0 * z
+| FAlloc of tid0 * ptr
+| FRetire of tid0 * ptr
+| FFree of tid0 * ptr
+
+(** val ev_tid : fevent -> tid0 **)
+
+let ev_tid = function
+| FCall (t, _, _) -> t
+| FRet (t, _) -> t
+| FLoad (t, _) -> t
+| FCas (t, _, _) -> t
+| FFetchSub (t, _) -> t
+| FSpin t -> t
+| FOLoad (t, _, _) -> t
+| FOCas (t, _, _, _) -> t
+| FOXchg (t, _, _) -> t
+| FOMove (t, _, _) -> t
+| FOAppend (t, _) -> t
+| FAlloc (t, _) -> t
+| FRetire (t, _) -> t
+| FFree (t, _) -> t
+
+type onode = z * ptr list
+
+type uframe = { u_old : sw; u_ecbc : bool; u_qs : z; u_te : z }
+
+type caller =
+| CallQ of sw
+| CallU of uframe
+
+type pc =
+| PIdle
+| PRet
+| PRegLoad
+| PRegCas of sw
+| PRegSpin of z
+| PRetObs of ptr
+| PRetLoad of ptr
+| PQLoad
+| PRmFsub of caller * z
+| PChXPrev of caller * z * bool
+| PChXCur of caller * z * bool * onode list
+| PChMove of caller * z * onode list
+| PChAppend of caller * z * onode list * z
+| PChLoad of caller * z
+| PChCas of caller * z * sw
+| PULoad of uframe
+| PUCas of uframe
+| POLoad of olist
+| POCas of olist * z
+
+type fthr = { ft : thr; ft_pc : pc; ft_op : fop; ft_free : ptr list }
+
+(** val fthr0 : fthr **)
+
+let fthr0 =
+  { ft = thr0; ft_pc = PIdle; ft_op = OpStart; ft_free = [] }
+
+type fstate = { f_w : sw; f_oprev : onode list; f_ocur : onode list;
+                f_thr : fthr list; f_freed : ptr list; f_gep : z;
+                f_wait : (ptr * tid0 list) list;
+                f_bad : (ptr * tid0 list) list }
+
+(** val finit : nat -> z -> fstate **)
+
+let finit n e =
+  { f_w = { w_ep = e; w_T = Z0; w_P = Z0 }; f_oprev = []; f_ocur = [];
+    f_thr = (repeat fthr0 n); f_freed = []; f_gep = Z0; f_wait = []; f_bad =
+    [] }
+
+(** val get_fthr : fstate -> tid0 -> fthr **)
+
+let get_fthr s t =
+  nth t s.f_thr fthr0
+
+(** val set_nth_fthr : nat -> fthr -> fthr list -> fthr list **)
+
+let rec set_nth_fthr i x l =
+  match i with
+  | O -> (match l with
+          | [] -> []
+          | _ :: l' -> x :: l')
+  | S i' -> (match l with
+             | [] -> []
+             | y :: l' -> y :: (set_nth_fthr i' x l'))
+
+(** val set_fthr : fstate -> tid0 -> fthr -> fstate **)
+
+let set_fthr s t x =
+  { f_w = s.f_w; f_oprev = s.f_oprev; f_ocur = s.f_ocur; f_thr =
+    (set_nth_fthr t x s.f_thr); f_freed = s.f_freed; f_gep = s.f_gep;
+    f_wait = s.f_wait; f_bad = s.f_bad }
+
+(** val set_w : fstate -> sw -> fstate **)
+
+let set_w s w =
+  { f_w = w; f_oprev = s.f_oprev; f_ocur = s.f_ocur; f_thr = s.f_thr;
+    f_freed = s.f_freed; f_gep = s.f_gep; f_wait = s.f_wait; f_bad = s.f_bad }
+
+(** val get_ol : fstate -> olist -> onode list **)
+
+let get_ol s = function
+| OPrev -> s.f_oprev
+| OCur -> s.f_ocur
+
+(** val set_ol : fstate -> olist -> onode list -> fstate **)
+
+let set_ol s l v =
+  { f_w = s.f_w; f_oprev = (match l with
+                            | OPrev -> v
+                            | OCur -> s.f_oprev); f_ocur =
+    (match l with
+     | OPrev -> s.f_ocur
+     | OCur -> v); f_thr = s.f_thr; f_freed = s.f_freed; f_gep = s.f_gep;
+    f_wait = s.f_wait; f_bad = s.f_bad }
+
+(** val set_wait : fstate -> (ptr * tid0 list) list -> fstate **)
+
+let set_wait s w =
+  { f_w = s.f_w; f_oprev = s.f_oprev; f_ocur = s.f_ocur; f_thr = s.f_thr;
+    f_freed = s.f_freed; f_gep = s.f_gep; f_wait = w; f_bad = s.f_bad }
+
+(** val bump_gep : fstate -> fstate **)
+
+let bump_gep s =
+  { f_w = s.f_w; f_oprev = s.f_oprev; f_ocur = s.f_ocur; f_thr = s.f_thr;
+    f_freed = s.f_freed; f_gep = (Z.add s.f_gep (Zpos XH)); f_wait =
+    s.f_wait; f_bad = s.f_bad }
+
+(** val ol_head : onode list -> z **)
+
+let ol_head = function
+| [] -> Z0
+| o :: _ -> let (a, _) = o in a
+
+(** val ol_reqs : onode list -> ptr list **)
+
+let ol_reqs l =
+  concat (map snd l)
+
+(** val with_pc : fthr -> pc -> fthr **)
+
+let with_pc x p =
+  { ft = x.ft; ft_pc = p; ft_op = x.ft_op; ft_free = x.ft_free }
+
+(** val upd1 : fthr -> thr -> pc -> ptr list -> fthr **)
+
+let upd1 x th p fr =
+  { ft = th; ft_pc = p; ft_op = x.ft_op; ft_free = (app x.ft_free fr) }
+
+(** val thr_set_reg : thr -> bool -> thr **)
+
+let thr_set_reg x b =
+  { t_reg = b; t_lsq = x.t_lsq; t_ls = x.t_ls; t_qs = x.t_qs; t_prev =
+    x.t_prev; t_cur = x.t_cur }
+
+(** val thr_set_lsq_qs : thr -> z -> z -> thr **)
+
+let thr_set_lsq_qs x e q =
+  { t_reg = x.t_reg; t_lsq = e; t_ls = x.t_ls; t_qs = q; t_prev = x.t_prev;
+    t_cur = x.t_cur }
+
+(** val thr_set_vec : thr -> olist -> ptr list -> thr **)
+
+let thr_set_vec x l v =
+  { t_reg = x.t_reg; t_lsq = x.t_lsq; t_ls = x.t_ls; t_qs = x.t_qs; t_prev =
+    (match l with
+     | OPrev -> v
+     | OCur -> x.t_prev); t_cur =
+    (match l with
+     | OPrev -> x.t_cur
+     | OCur -> v) }
+
+(** val thr_vec : thr -> olist -> ptr list **)
+
+let thr_vec x = function
+| OPrev -> x.t_prev
+| OCur -> x.t_cur
+
+(** val reg_return : fthr -> z -> fthr **)
+
+let reg_return x e =
+  upd1 x { t_reg = x.ft.t_reg; t_lsq = e; t_ls = e; t_qs = Z0; t_prev =
+    x.ft.t_prev; t_cur = x.ft.t_cur } PRet []
+
+(** val orph_next : thr -> pc **)
+
+let orph_next th =
+  match th.t_prev with
+  | [] -> (match th.t_cur with
+           | [] -> PRet
+           | _ :: _ -> POLoad OCur)
+  | _ :: _ -> POLoad OPrev
+
+(** val u_remove_old : uframe -> bool **)
+
+let u_remove_old u =
+  (||) (negb (Z.eqb u.u_te u.u_old.w_ep)) (Z.eqb u.u_qs Z0)
+
+(** val u_advance : uframe -> bool **)
+
+let u_advance u =
+  (&&) ((&&) (u_remove_old u) (Z.eqb u.u_old.w_P (Zpos XH)))
+    (negb ((&&) (sw_stm u.u_old) u.u_ecbc))
+
+(** val u_decide : uframe -> pc **)
+
+let u_decide u =
+  if Z.eqb u.u_old.w_P Z0
+  then PUCas u
+  else if u_advance u then PRmFsub ((CallU u), u.u_old.w_ep) else PUCas u
+
+(** val u_desired : uframe -> sw **)
+
+let u_desired u =
+  if Z.eqb u.u_old.w_P Z0
+  then sw_dec_T u.u_old
+  else if u_remove_old u then sw_dec_TP u.u_old else sw_dec_T u.u_old
+
+(** val u_with_old : uframe -> sw -> uframe **)
+
+let u_with_old u w =
+  { u_old = w; u_ecbc = u.u_ecbc; u_qs = u.u_qs; u_te = u.u_te }
+
+(** val rm_return : fthr -> caller -> z -> fthr **)
+
+let rm_return x c ne =
+  match c with
+  | CallQ st0 ->
+    let th = x.ft in
+    if negb (Z.eqb ne th.t_lsq)
+    then let (th', f) =
+           exec_prev (thr_set_lsq_qs th ne th.t_qs) (sw_stm st0) ne []
+         in
+         upd1 x th' PRet f
+    else upd1 x (thr_set_lsq_qs th th.t_lsq (Z.add th.t_qs (Zpos XH))) PRet []
+  | CallU u ->
+    let oe = u.u_old.w_ep in
+    let ostm = sw_stm u.u_old in
+    if negb (Z.eqb ne oe)
+    then let (p, _) = adv_seen x.ft ostm oe [] in
+         let (th1, f1) = p in
+         let (th2, f2) = exec_prev th1 ostm ne [] in
+         upd1 x th2 (PULoad { u_old = u.u_old; u_ecbc = true; u_qs = Z0;
+           u_te = ne }) (app f1 f2)
+    else upd1 x x.ft (PULoad { u_old = u.u_old; u_ecbc = u.u_ecbc; u_qs =
+           (Zpos XH); u_te = ne }) []
+
+(** val append_from : z -> onode list -> onode list -> onode list option **)
+
+let rec append_from h l tc =
+  match l with
+  | [] -> None
+  | o :: l' ->
+    let (a, v) = o in
+    if Z.eqb a h
+    then Some (app l tc)
+    else (match append_from h l' tc with
+          | Some r -> Some ((a, v) :: r)
+          | None -> None)
+
+(** val holds_refs : fthr -> bool **)
+
+let holds_refs x =
+  (&&) x.ft.t_reg
+    (negb
+      (match x.ft_pc with
+       | PIdle -> false
+       | _ -> fop_eqb x.ft_op OpQuiescent))
+
+(** val active_others : fthr list -> tid0 -> nat -> tid0 list **)
+
+let rec active_others l t i =
+  match l with
+  | [] -> []
+  | x :: l' ->
+    app (if (&&) (holds_refs x) (negb (Nat.eqb i t)) then i :: [] else [])
+      (active_others l' t (S i))
+
+(** val remove_ptr : ptr -> ptr list -> ptr list **)
+
+let rec remove_ptr p = function
+| [] -> []
+| q :: l' -> if Z.eqb q p then remove_ptr p l' else q :: (remove_ptr p l')
+
+(** val sees : fstate -> z -> bool **)
+
+let sees s w =
+  Z.eqb w (sw_word s.f_w)
+
+(** val step_free : fstate -> tid0 -> fthr -> ptr -> fstate option **)
+
+let step_free s t x p =
+  match x.ft_free with
+  | [] -> None
+  | q :: r ->
+    if Z.eqb p q
+    then let ws = wait_of s.f_wait p in
+         let s1 =
+           set_fthr s t { ft = x.ft; ft_pc = x.ft_pc; ft_op = x.ft_op;
+             ft_free = r }
+         in
+         Some { f_w = s1.f_w; f_oprev = s1.f_oprev; f_ocur = s1.f_ocur;
+         f_thr = s1.f_thr; f_freed = (p :: s1.f_freed); f_gep = s1.f_gep;
+         f_wait = (ghost_drop s1.f_wait (p :: [])); f_bad =
+         (match ws with
+          | [] -> s1.f_bad
+          | _ :: _ -> app s1.f_bad ((p, ws) :: [])) }
+    else None
+
+(** val step_alloc : fstate -> tid0 -> fthr -> ptr -> fstate option **)
+
+let step_alloc s _ x p =
+  match x.ft_pc with
+  | PIdle ->
+    Some { f_w = s.f_w; f_oprev = s.f_oprev; f_ocur = s.f_ocur; f_thr =
+      s.f_thr; f_freed = (remove_ptr p s.f_freed); f_gep = s.f_gep; f_wait =
+      s.f_wait; f_bad = s.f_bad }
+  | _ -> None
+
+(** val set_op : fthr -> fop -> thr -> pc -> fthr **)
+
+let set_op x o th p =
+  { ft = th; ft_pc = p; ft_op = o; ft_free = x.ft_free }
+
+(** val step_call : fstate -> tid0 -> fthr -> fop -> z -> fstate option **)
+
+let step_call s t x o arg =
+  let th = x.ft in
+  (match o with
+   | OpStart ->
+     if th.t_reg then None else Some (set_fthr s t (set_op x o th PRegLoad))
+   | OpResume ->
+     if th.t_reg then None else Some (set_fthr s t (set_op x o th PRegLoad))
+   | OpQuiescent ->
+     if th.t_reg
+     then Some
+            (set_fthr (set_wait s (ghost_passed s.f_wait t)) t
+              (set_op x o th PQLoad))
+     else None
+   | OpRetire ->
+     if th.t_reg
+     then Some (set_fthr s t (set_op x o th (PRetObs arg)))
+     else None
+   | _ ->
+     if th.t_reg
+     then let u = { u_old = s.f_w; u_ecbc = false; u_qs = th.t_qs; u_te =
+            th.t_lsq }
+          in
+          Some
+          (set_fthr (set_wait s (ghost_passed s.f_wait t)) t
+            (set_op x o (thr_set_reg th false) (PULoad u)))
+     else None)
+
+(** val step_ret : fstate -> tid0 -> fthr -> fop -> fstate option **)
+
+let step_ret s t x o =
+  if fop_eqb o x.ft_op
+  then let th =
+         match o with
+         | OpStart -> thr_set_reg x.ft true
+         | OpResume -> thr_set_reg x.ft true
+         | _ -> x.ft
+       in
+       Some (set_fthr s t (upd1 x th PIdle []))
+  else None
+
+(** val step_reg : fstate -> tid0 -> fthr -> fevent -> fstate option **)
+
+let step_reg s t x e =
+  match x.ft_pc with
+  | PRegLoad ->
+    (match e with
+     | FLoad (_, w) ->
+       if sees s w
+       then Some (set_fthr s t (with_pc x (PRegCas s.f_w)))
+       else None
+     | _ -> None)
+  | PRegCas old ->
+    (match e with
+     | FCas (_, ex, de) ->
+       let both = (||) (Z.ltb Z0 old.w_P) (Z.eqb old.w_T Z0) in
+       let new0 = if both then sw_inc_TP old else sw_inc_T old in
+       if (&&) (Z.eqb ex (sw_word old)) (Z.eqb de (sw_word new0))
+       then if sw_eqb old s.f_w
+            then Some
+                   (set_fthr (set_w s new0) t
+                     (if both
+                      then reg_return x old.w_ep
+                      else with_pc x (PRegSpin old.w_ep)))
+            else Some (set_fthr s t (with_pc x (PRegCas s.f_w)))
+       else None
+     | _ -> None)
+  | PRegSpin oe ->
+    (match e with
+     | FLoad (_, w) ->
+       if sees s w
+       then if negb (Z.eqb s.f_w.w_ep oe)
+            then Some (set_fthr s t (reg_return x s.f_w.w_ep))
+            else Some s
+       else None
+     | FSpin _ -> Some s
+     | _ -> None)
+  | _ -> None
+
+(** val step_retire : fstate -> tid0 -> fthr -> fevent -> fstate option **)
+
+let step_retire s t x e =
+  match x.ft_pc with
+  | PRetObs p ->
+    (match e with
+     | FRetire (_, p') ->
+       if Z.eqb p' p
+       then Some
+              (set_fthr
+                (set_wait s ((p, (active_others s.f_thr t O)) :: s.f_wait)) t
+                (with_pc x (PRetLoad p)))
+       else None
+     | _ -> None)
+  | PRetLoad p ->
+    (match e with
+     | FLoad (_, w) ->
+       if sees s w
+       then let th = x.ft in
+            let ge = s.f_w.w_ep in
+            let stm = sw_stm s.f_w in
+            if stm
+            then let (p0, _) = adv_seen th stm ge [] in
+                 let (th', f) = p0 in
+                 Some (set_fthr s t (upd1 x th' PRet (app f (p :: []))))
+            else if negb (Z.eqb th.t_ls ge)
+                 then let (p0, _) = adv_seen th stm ge (p :: []) in
+                      let (th', f) = p0 in
+                      Some (set_fthr s t (upd1 x th' PRet f))
+                 else Some
+                        (set_fthr s t
+                          (upd1 x
+                            (thr_set_vec th OCur (app th.t_cur (p :: [])))
+                            PRet []))
+       else None
+     | _ -> None)
+  | _ -> None
+
+(** val step_q : fstate -> tid0 -> fthr -> fevent -> fstate option **)
+
+let step_q s t x e =
+  match x.ft_pc with
+  | PQLoad ->
+    (match e with
+     | FLoad (_, w) ->
+       if sees s w
+       then let st0 = s.f_w in
+            let ge = st0.w_ep in
+            let (p, _) = adv_seen x.ft (sw_stm st0) ge [] in
+            let (th1, f1) = p in
+            let th2 =
+              if negb (Z.eqb ge th1.t_lsq)
+              then thr_set_lsq_qs th1 ge Z0
+              else th1
+            in
+            if Z.eqb th2.t_qs Z0
+            then Some
+                   (set_fthr s t (upd1 x th2 (PRmFsub ((CallQ st0), ge)) f1))
+            else Some
+                   (set_fthr s t
+                     (upd1 x
+                       (thr_set_lsq_qs th2 th2.t_lsq
+                         (Z.add th2.t_qs (Zpos XH))) PRet f1))
+       else None
+     | _ -> None)
+  | _ -> None
+
+(** val step_epoch : fstate -> tid0 -> fthr -> fevent -> fstate option **)
+
+let step_epoch s t x e =
+  match x.ft_pc with
+  | PRmFsub (c, cge) ->
+    (match e with
+     | FFetchSub (_, w) ->
+       let old = s.f_w in
+       if (&&) (sees s w) (Z.ltb Z0 old.w_P)
+       then let s1 = set_w s (sw_dec_P old) in
+            if Z.ltb (Zpos XH) old.w_P
+            then Some (set_fthr s1 t (rm_return x c cge))
+            else Some
+                   (set_fthr s1 t
+                     (with_pc x (PChXPrev (c, cge, (sw_stm old)))))
+       else None
+     | _ -> None)
+  | PChXPrev (c, cge, stm) ->
+    (match e with
+     | FOXchg (_, l, h) ->
+       (match l with
+        | OPrev ->
+          if Z.eqb h (ol_head s.f_oprev)
+          then Some
+                 (set_fthr (set_ol s OPrev []) t
+                   (with_pc x (PChXCur (c, cge, stm, s.f_oprev))))
+          else None
+        | OCur -> None)
+     | _ -> None)
+  | PChXCur (c, cge, stm, tp) ->
+    (match e with
+     | FOXchg (_, l, h) ->
+       (match l with
+        | OPrev -> None
+        | OCur ->
+          if Z.eqb h (ol_head s.f_ocur)
+          then let tc = s.f_ocur in
+               let s1 = set_ol s OCur [] in
+               if stm
+               then Some
+                      (set_fthr s1 t
+                        (upd1 x x.ft (PChLoad (c, cge))
+                          (app (ol_reqs tp) (ol_reqs tc))))
+               else Some
+                      (set_fthr s1 t
+                        (upd1 x x.ft (PChMove (c, cge, tc)) (ol_reqs tp)))
+          else None)
+     | _ -> None)
+  | PChMove (c, cge, tc) ->
+    (match e with
+     | FOMove (_, ex, de) ->
+       if (&&) (Z.eqb ex Z0) (Z.eqb de (ol_head tc))
+       then (match s.f_oprev with
+             | [] ->
+               Some
+                 (set_fthr (set_ol s OPrev tc) t
+                   (with_pc x (PChLoad (c, cge))))
+             | o :: _ ->
+               let (a, _) = o in
+               Some (set_fthr s t (with_pc x (PChAppend (c, cge, tc, a)))))
+       else None
+     | _ -> None)
+  | PChAppend (c, cge, tc, h) ->
+    (match e with
+     | FOAppend (_, d) ->
+       if Z.eqb d (ol_head tc)
+       then (match append_from h s.f_oprev tc with
+             | Some l ->
+               Some
+                 (set_fthr (set_ol s OPrev l) t
+                   (with_pc x (PChLoad (c, cge))))
+             | None -> None)
+       else None
+     | _ -> None)
+  | PChLoad (c, cge) ->
+    (match e with
+     | FLoad (_, w) ->
+       if sees s w
+       then Some (set_fthr s t (with_pc x (PChCas (c, cge, s.f_w))))
+       else None
+     | _ -> None)
+  | PChCas (c, cge, old) ->
+    (match e with
+     | FCas (_, ex, de) ->
+       let new0 = sw_next_epoch old in
+       if (&&) (Z.eqb ex (sw_word old)) (Z.eqb de (sw_word new0))
+       then if sw_eqb old s.f_w
+            then Some
+                   (set_fthr (bump_gep (set_w s new0)) t
+                     (rm_return x c (ep_adv cge)))
+            else Some (set_fthr s t (with_pc x (PChCas (c, cge, s.f_w))))
+       else None
+     | _ -> None)
+  | _ -> None
+
+(** val step_unreg : fstate -> tid0 -> fthr -> fevent -> fstate option **)
+
+let step_unreg s t x e =
+  match x.ft_pc with
+  | PULoad u ->
+    (match e with
+     | FLoad (_, w) ->
+       if sees s w
+       then Some (set_fthr s t (with_pc x (u_decide (u_with_old u s.f_w))))
+       else None
+     | _ -> None)
+  | PUCas u ->
+    (match e with
+     | FCas (_, ex, de) ->
+       let old = u.u_old in
+       let new0 = u_desired u in
+       if (&&) (Z.eqb ex (sw_word old)) (Z.eqb de (sw_word new0))
+       then if sw_eqb old s.f_w
+            then if Z.eqb old.w_P Z0
+                 then Some
+                        (set_fthr (set_w s new0) t
+                          (upd1 x x.ft (orph_next x.ft) []))
+                 else let (p, _) = adv_seen x.ft (sw_stm old) old.w_ep [] in
+                      let (th1, f1) = p in
+                      Some
+                      (set_fthr (set_w s new0) t
+                        (upd1 x th1 (orph_next th1) f1))
+            else Some
+                   (set_fthr s t (with_pc x (u_decide (u_with_old u s.f_w))))
+       else None
+     | _ -> None)
+  | _ -> None
+
+(** val step_orph : fstate -> tid0 -> fthr -> fevent -> fstate option **)
+
+let step_orph s t x e =
+  match x.ft_pc with
+  | POLoad l ->
+    (match e with
+     | FOLoad (_, l', h) ->
+       if (&&) (olist_eqb l l') (Z.eqb h (ol_head (get_ol s l)))
+       then Some (set_fthr s t (with_pc x (POCas (l, h))))
+       else None
+     | _ -> None)
+  | POCas (l, nx) ->
+    (match e with
+     | FOCas (_, l', ex, de) ->
+       if (&&) ((&&) (olist_eqb l l') (Z.eqb ex nx)) (negb (Z.eqb de Z0))
+       then if Z.eqb nx (ol_head (get_ol s l))
+            then let th = thr_set_vec x.ft l [] in
+                 Some
+                 (set_fthr
+                   (set_ol s l ((de, (thr_vec x.ft l)) :: (get_ol s l))) t
+                   (upd1 x th (orph_next th) []))
+            else Some
+                   (set_fthr s t
+                     (with_pc x (POCas (l, (ol_head (get_ol s l))))))
+       else None
+     | _ -> None)
+  | _ -> None
+
+(** val fstep : fstate -> fevent -> fstate option **)
+
+let fstep s e =
+  let t = ev_tid e in
+  if Nat.ltb t (length s.f_thr)
+  then let x = get_fthr s t in
+       (match e with
+        | FFree (_, p) -> step_free s t x p
+        | _ ->
+          (match x.ft_free with
+           | [] ->
+             (match e with
+              | FCall (_, o, arg) ->
+                (match x.ft_pc with
+                 | PIdle -> step_call s t x o arg
+                 | _ -> None)
+              | FRet (_, o) ->
+                (match x.ft_pc with
+                 | PRet -> step_ret s t x o
+                 | _ -> None)
+              | FAlloc (_, p) -> step_alloc s t x p
+              | _ ->
+                (match x.ft_pc with
+                 | PIdle -> None
+                 | PRet -> None
+                 | PRegLoad -> step_reg s t x e
+                 | PRegCas _ -> step_reg s t x e
+                 | PRegSpin _ -> step_reg s t x e
+                 | PRetObs _ -> step_retire s t x e
+                 | PRetLoad _ -> step_retire s t x e
+                 | PQLoad -> step_q s t x e
+                 | PULoad _ -> step_unreg s t x e
+                 | PUCas _ -> step_unreg s t x e
+                 | POLoad _ -> step_orph s t x e
+                 | POCas (_, _) -> step_orph s t x e
+                 | _ -> step_epoch s t x e))
+           | _ :: _ -> None))
+  else None
+
+(** val frun : fstate -> fevent list -> fstate option **)
+
+let rec frun s = function
+| [] -> Some s
+| e :: tr' -> (match fstep s e with
+               | Some s' -> frun s' tr'
+               | None -> None)
+
+(** val frun_diag : fstate -> fevent list -> nat -> fstate * nat option **)
+
+let rec frun_diag s tr i =
+  match tr with
+  | [] -> (s, None)
+  | e :: tr' ->
+    (match fstep s e with
+     | Some s' -> frun_diag s' tr' (S i)
+     | None -> (s, (Some i)))
+
+(** val fbad : fstate -> (ptr * tid0 list) list **)
+
+let fbad s =
+  s.f_bad
+
+(** val pc_reqs : pc -> ptr list **)
+
+let pc_reqs = function
+| PRetLoad p0 -> p0 :: []
+| PChXCur (_, _, _, tp) -> ol_reqs tp
+| PChMove (_, _, tc) -> ol_reqs tc
+| PChAppend (_, _, tc, _) -> ol_reqs tc
+| _ -> []
+
+(** val fpending : fstate -> ptr list **)
+
+let fpending s =
+  app
+    (concat
+      (map (fun x ->
+        app x.ft.t_prev (app x.ft.t_cur (app (pc_reqs x.ft_pc) x.ft_free)))
+        s.f_thr)) (app (ol_reqs s.f_oprev) (ol_reqs s.f_ocur))
+
 type lop =
 | LGet of z list
 | LInsert of z list * z list
